@@ -139,8 +139,12 @@ def gen_case(rng):
     make = 'stock'
     if rng.random() < 0.4:
         make = rng.choice(['custom-init', 'custom-init'] + (['existing-echo', 'plain-prompts'] if shell == 'python' else []))
-    return {'shell': shell, 'async': rng.random() < 0.4, 'cmds': [list(c) for c in cmds], 'make': make,
+    case = {'shell': shell, 'async': rng.random() < 0.4, 'cmds': [list(c) for c in cmds], 'make': make,
             'init': rng.randrange(4)}
+    if rng.random() < 0.35 and not any(c[2] == 'large' for c in cmds) and not any(len(c[1] or '') > 5000 for c in cmds):
+        # reads much smaller than the prompt: every prompt arrives in pieces
+        case['maxread'] = rng.choice([1, 5, 7, 15, 64])
+    return case
 
 
 BASH_INITS = ["export PAGER=cat\nexport PV_A=1", "export PAGER=cat\n", "for i in 1 2; do\n :\ndone",
@@ -178,6 +182,9 @@ def one(case, acc):
     shell = case['shell']
     try:
         repl = make_repl(case)
+        if case.get('maxread'):
+            repl.child.maxread = case['maxread']
+            acc.count('wrappers_with_small_reads')
         acc.count('wrappers_' + case.get('make', 'stock'))
     except Exception as e:
         # bash and python exist (selftest): an exception while the wrapper sets itself up comes from pexpect
